@@ -656,6 +656,9 @@ func (ipv6cp *IPV6CPStateMachine) timeout() {
 			ipv6cp.setState(IPV6CPStateReqSent)
 		}
 	} else {
+		// Giving up: no restart timer may stay armed (this callback can belong to an
+		// instance that was already replaced by a newer one).
+		ipv6cp.stopTimer()
 		switch ipv6cp.state {
 		case IPV6CPStateClosing:
 			ipv6cp.setState(IPV6CPStateClosed)
